@@ -96,6 +96,8 @@ def plan(tier):
                                      (1, 1), (-2, -1), (-3, -1), (0, -1),
                                      (-2, 3), (1, -1), (-5, 2), (1, 9))]
     PLIST = [((s,), paths.render((s,), "/")) for s in voc]
+    # the document root itself, whatever it holds (an empty Array too)
+    PLIST.append(((), "/"))
     for p in paths.upto(paths.vocab("c01-quick"), 2):
         if len(p) == 2:
             PLIST.append((p, paths.render(p, "/")))
@@ -256,6 +258,8 @@ SESSION_MENU = [
     ("query", (("search", ".", "=", "a", False),), None),
     ("query", (("search", ".", "^", "a", True),), None),
     ("query", (("search", "a", "=", "x", False),), None),
+    # the document root, also once earlier steps have emptied it
+    ("delete", (), None),
 ]
 
 
@@ -265,7 +269,7 @@ def session_family(seed_index, depth, first):
     text = SESSION_SEEDS[seed_index]
     # steps which can never apply to this seed are dropped from its menu
     root = corpus.load(text)
-    menu = [m for m in SESSION_MENU if m[0] == "query" or (
+    menu = [m for m in SESSION_MENU if m[0] == "query" or m[1] == () or (
         (m[0] == "delete" and model(root, m[1])[0] == "doc") or
         (m[0] == "set" and editrun.model_set(root, m[1], m[2])[0] == "doc"))]
     if SESSION_MENU[first] not in menu:
@@ -353,6 +357,10 @@ def session_run(st, text, seq):
                 st.fail("session|%s|no-match-but-changed" % op, case,
                         "document unchanged", "%s %s %r" % (
                             res, detail, got)[:300])
+                return
+            if mod[0] == "root" and res != "ype":
+                st.fail("session|delete|root-not-refused", case,
+                        "YAML Path error", "%s %s" % (res, detail))
                 return
             continue
         if res != "ok":
@@ -457,15 +465,24 @@ def check_delete(st, doc0, text, shp, segs, ptext):
     doc = editrun.fresh(doc0)
     st.transitions += 1
     st.validated += 1
-    sig = paths.sig(segs) if segs[0] != "collector" else "collector-sum"
+    is_sum = bool(segs) and segs[0] == "collector"
+    sig = "collector-sum" if is_sum else (paths.sig(segs) if segs else "root")
     case = {"doc": text, "op": "delete", "path": ptext,
-            "segs": segs if segs[0] != "collector" else
-            ["collector", segs[1]]}
+            "segs": ["collector", segs[1]] if is_sum else segs}
     res, detail = editrun.apply_delete(doc, ptext)
     st.outcomes[res if res != "ype" else "ype:" + detail] += 1
     got = corpus.canon(doc, anchors=True)
     if mod[0] == "root":
         before = corpus.canon(doc0, anchors=True)
+        if segs == ():
+            # the same through the nodes gathered by a query
+            doc2 = editrun.fresh(doc0)
+            res2, detail2 = editrun.apply_delete_gathered(doc2, ptext)
+            st.transitions += 1
+            if res2 != "ype" or corpus.canon(doc2, anchors=True) != before:
+                st.fail("delete|gathered-root|root-not-refused", case,
+                        "YAML Path error, document unchanged",
+                        "%s %s" % (res2, detail2))
         if res != "ype":
             st.fail("delete|%s|root-not-refused" % sig, case,
                     "YAML Path error", "%s %s" % (res, detail))
